@@ -298,7 +298,7 @@ func C08() int {
 	// ---- Atlas mode: the same promise for each downloaded log (a failure on any host's file is a failure of the run)
 	c08Atlas(s, c)
 
-	c.Set("race_reports", s.RaceReports())
+	raceVerdict(s, c)
 	c.Set("sut_statement_coverage_percent", s.CoverFuncs())
 	for _, k := range []string{"write", "read", "gzcut", "gzflip"} {
 		if c.Counter("fault_points_"+k) < 300 {
